@@ -9,7 +9,7 @@ region narrow: (construct, gap kind per slot).
 
 from __future__ import annotations
 
-GAP_KINDS = ["sp", "nl", "blank", "eolc", "eolc_blank", "ownc", "sp2"]
+GAP_KINDS = ["sp", "nl", "blank", "eolc", "eolc_blank", "ownc", "sp2", "ownc_blank", "blank_ownc"]
 
 
 class Zoo:
@@ -40,7 +40,7 @@ class Zoo:
 
     def gap(self, ind: str, *, allow_empty: bool = False, weights=None) -> str:
         kinds = GAP_KINDS
-        kind = self.rng.choices(kinds, weights=weights or [6, 3, 1, 1, 1, 1, 0.5])[0]
+        kind = self.rng.choices(kinds, weights=weights or [6, 3, 1, 1, 1, 1, 0.5, 0.7, 0.7])[0]
         self.slots.append(kind)
         self.k += 1
         c = "# c%d" % self.k
@@ -52,6 +52,8 @@ class Zoo:
             "eolc": " " + c + "\n" + ind,
             "eolc_blank": " " + c + "\n\n" + ind,
             "ownc": "\n" + ind + c + "\n" + ind,
+            "ownc_blank": "\n" + ind + c + "\n\n" + ind,
+            "blank_ownc": "\n\n" + ind + c + "\n" + ind,
         }[kind]
 
     def construct(self, kind: str, ind: str) -> str:
@@ -66,7 +68,7 @@ class Zoo:
                 parts += [g(), op]
                 parts += [g(), a()]
                 after_op = self.slots[-1]
-            self.extra = {"binop_chain": n_ops, "comment_after_last_op": after_op in ("eolc", "eolc_blank", "ownc")}
+            self.extra = {"binop_chain": n_ops, "comment_after_last_op": after_op in ("eolc", "eolc_blank", "ownc", "ownc_blank", "blank_ownc")}
             return "".join(parts)
         if kind == "if":
             return "if" + g() + a() + g() + "then" + g() + a() + g() + "else" + g() + a()
@@ -125,7 +127,7 @@ class Zoo:
             text = body + "\n"
         elif place == "binding":
             val = self.construct(kind, "    ")
-            sep = self.gap("    ", weights=[8, 2, 0, 0, 0, 0, 0.3])
+            sep = self.gap("    ", weights=[8, 2, 0, 0, 0, 0, 0.3, 0, 0])
             text = "{\n  pre = 1;\n  k =" + sep + val + ";\n  post = 2;\n}\n"
         elif place == "let_binding":
             val = self.construct(kind, "    ")
